@@ -9,6 +9,8 @@ import Emerge.Base
                    forward++; retracted > 0 → retracted-- (wrap at 2n, no load)
                    else forward == n → load(n); forward == 2n → load(0), forward = 0
     Retract(size)  forward -= size (wrapping below 0 by +2n); retracted += size
+    Lexeme()       the bytes from lexemeBegin up to forward (wrapping at 2n); lexemeBegin = forward
+    Skip()         lexemeBegin = forward
 
   `src : Nat → Nat` with `len` is the source (bytes at absolute offsets). Core Lean only.
 -/
@@ -19,6 +21,7 @@ structure RState where
   fwd : Nat
   pend : Nat          -- `retracted`
   loaded : Nat        -- how much of the source the loads have consumed
+  lb : Nat            -- `lexemeBegin`
 
 def load (src : Nat → Nat) (len n : Nat) (s : RState) (low : Nat) : RState :=
   let cnt := min n (len - s.loaded)
@@ -44,12 +47,63 @@ def retract (n : Nat) (s : RState) (size : Nat) : RState :=
 
 /-- `newInput`: an empty buffer, then the first half is loaded -/
 def init (src : Nat → Nat) (len n : Nat) (buf0 : Nat → Nat) : RState :=
-  load src len n ⟨buf0, 0, 0, 0⟩ 0
+  load src len n ⟨buf0, 0, 0, 0, 0⟩ 0
 
-/-! ### the plain stream the reader is meant to be -/
+/-- the loop of `Lexeme`: at most `2n` cells lie between `lexemeBegin` and `forward` -/
+def collect (s : RState) (n : Nat) : Nat → Nat → List Nat
+  | 0, _ => []
+  | fuel + 1, i => if i = s.fwd then [] else s.buf i :: collect s n fuel (if i + 1 = 2 * n then 0 else i + 1)
 
-/-- abstract cursor: the number of bytes consumed -/
-def anext (src : Nat → Nat) (len : Nat) (k : Nat) : Option Nat × Nat :=
-  if k < len then (some (src k), k + 1) else (none, k)
+def lexeme (n : Nat) (s : RState) : List Nat × RState := (collect s n (2 * n) s.lb, { s with lb := s.fwd })
+
+def skip (s : RState) : RState := { s with lb := s.fwd }
+
+/-! ### the plain stream the reader is meant to be, and runs of both -/
+
+inductive Op where
+  | next
+  | retract (size : Nat)
+  | lexeme
+  | skip
+
+inductive Out where
+  | byte (b : Nat)
+  | eof
+  | unit
+  | lex (bs : List Nat)
+  deriving DecidableEq, Repr
+
+/-- the plain stream: cursor, bytes currently given back, start of the pending lexeme -/
+structure AState where
+  k : Nat
+  p : Nat
+  kb : Nat
+
+/-- one call on the plain stream; `none` = the call is outside the reader's contract (a `Retract` must give back
+    bytes of the pending lexeme and keep at most one half outstanding; at a `Lexeme`, lexeme and look-ahead must
+    fit into one half) -/
+def aStep (src : Nat → Nat) (len n : Nat) (a : AState) : Op → Option (Out × AState)
+  | .next => if a.k < len then some (.byte (src a.k), ⟨a.k + 1, a.p - 1, a.kb⟩) else some (.eof, a)
+  | .retract size => if size + a.kb ≤ a.k ∧ a.p + size ≤ n then some (.unit, ⟨a.k - size, a.p + size, a.kb⟩) else none
+  | .lexeme => if a.k + a.p ≤ a.kb + n then some (.lex ((List.range (a.k - a.kb)).map fun i => src (a.kb + i)), ⟨a.k, a.p, a.k⟩) else none
+  | .skip => some (.unit, ⟨a.k, a.p, a.k⟩)
+
+def aRun (src : Nat → Nat) (len n : Nat) : AState → List Op → Option (List Out)
+  | _, [] => some []
+  | st, op :: ops =>
+    match aStep src len n st op with
+    | none => none
+    | some (o, st') => (aRun src len n st' ops).map (o :: ·)
+
+def cStep (src : Nat → Nat) (len n : Nat) (s : RState) : Op → Out × RState
+  | .next => (match (next src len n s).1 with | some b => .byte b | none => .eof, (next src len n s).2)
+  | .retract size => (.unit, retract n s size)
+  | .lexeme => (.lex (lexeme n s).1, (lexeme n s).2)
+  | .skip => (.unit, skip s)
+
+def cRun (src : Nat → Nat) (len n : Nat) : RState → List Op → List Out
+  | _, [] => []
+  | s, op :: ops => (cStep src len n s op).1 :: cRun src len n (cStep src len n s op).2 ops
+
 
 end Emerge.Reader
